@@ -31,7 +31,7 @@ func init() {
 		"bytes.TrimRight":             intrBytesSubslice,
 		"bytes.TrimPrefix":            intrBytesSubslice,
 		"bytes.TrimSuffix":            intrBytesSubslice,
-		"(*bytes.Buffer).Reset":       intrBufNoGrow,
+		"(*bytes.Buffer).Reset":       intrBufReset,
 		"(*bytes.Buffer).Len":         intrBufLen,
 		"(*bytes.Buffer).Bytes":       intrBufBytes,
 		"(*bytes.Buffer).String":      intrBufString,
@@ -255,6 +255,10 @@ const bufArrComp = "Buf.arr"
 // "Pool.held" (Array Int Bool): the buffer is checked out (Get without a Put yet) by the function under verification
 const poolHeldComp = "Pool.held"
 
+// ghost: kind of the last write to the *bytes.Buffer: 1 = WriteByte(',') (a separator is pending), 2 = WriteByte of an
+// opening bracket, 0 = anything else (also right after Reset)
+const bufSepComp = "Buf.sep"
+
 func bufferPtrType(f *Frame) types.Type {
 	for _, pk := range f.vc.prog.prog.AllPackages() {
 		if pk.Pkg.Path() == "bytes" {
@@ -366,6 +370,15 @@ func intrBufNoGrow(f *Frame, callee *ssa.Function, args []Val, pc string, st *St
 	return Val{}, pc
 }
 
+func intrBufReset(f *Frame, callee *ssa.Function, args []Val, pc string, st *State, ins ssa.Value) (Val, string) {
+	vc := f.vc
+	b := bufRecv(f, args, pc, ins)
+	sep := vc.comp(st, bufSepComp, "(Array Int Int)")
+	f.noteCompSt(st, bufSepComp)
+	st.heap[bufSepComp] = vc.define("h", "(Array Int Int)", fmt.Sprintf("(store %s %s 0)", sep, b))
+	return Val{}, pc
+}
+
 func intrBufLen(f *Frame, callee *ssa.Function, args []Val, pc string, st *State, ins ssa.Value) (Val, string) {
 	bufRecv(f, args, pc, ins)
 	n := f.vc.freshConst("buflen", "Int")
@@ -408,6 +421,15 @@ func intrBufWrite(f *Frame, callee *ssa.Function, args []Val, pc string, st *Sta
 	E := vc.comp(st, cn, vc.elemCompSort(et), et)
 	f.noteCompSt(st, cn)
 	st.heap[cn] = vc.define("h", vc.compSorts[cn], fmt.Sprintf("(store %s %s %s)", E, na, vc.freshConst("bufcontent", "(Array Int Int)")))
+	// ghost: is a separator pending? (set by WriteByte(','), cleared by every other write)
+	sep := vc.comp(st, bufSepComp, "(Array Int Int)")
+	f.noteCompSt(st, bufSepComp)
+	sepv := "0"
+	if callee.Name() == "WriteByte" && len(args) == 2 {
+		c := f.termOf(args[1])
+		sepv = fmt.Sprintf("(ite (= %s 44) 1 (ite (or (= %s 123) (= %s 91)) 2 0))", c, c, c)
+	}
+	st.heap[bufSepComp] = vc.define("h", "(Array Int Int)", fmt.Sprintf("(store %s %s %s)", sep, b, sepv))
 	res := callee.Signature.Results()
 	switch res.Len() {
 	case 1: // WriteByte: error (always nil)
